@@ -64,4 +64,14 @@ vpv_native!(c43_span_to_location, "C43/navigation::span_to_location/the reported
     }
     ok
 });
-vpv_replay_table!(c43_byte_offset_to_position, c43_word_at_position, c43_span_to_location);
+
+// the same helper over the larger native document set and EVERY byte offset 0..=len+1 (also offsets inside a multi-byte character)
+vpv_native!(c43_byte_offset_to_position_native, "C43/navigation::byte_offset_to_position/no-panic, line <= #newlines, col <= #characters for every byte offset, also inside a multi-byte character (native enumeration: 7382 documents x offsets 0..=len+1)", {
+    let mut ok = true; let mut shown = 0;
+    for d in docs() { for off in 0..=d.len() + 1 {
+        let good = vpv_enum_try(|| format!("document={:?} byte offset={}", d, off), || { let (line, col) = byte_offset_to_position(&d, off); line <= d.matches('\n').count() && col <= d.chars().count() });
+        if !good { ok = false; shown += 1; if shown >= 3 { return false; } }
+    } }
+    ok
+});
+vpv_replay_table!(c43_byte_offset_to_position, c43_word_at_position, c43_span_to_location, c43_byte_offset_to_position_native);
